@@ -236,8 +236,11 @@ PROPS = {
                         "result needs, outside what the eval generators produce"],
     },
     "C01": {
-        "proof_modules": ["GrolProofs.Props.C01"],
-        "theorems": ["Grol.E.C01.int_arith", "Grol.E.C01.int_arith_wraps", "Grol.E.C01.int_div", "Grol.E.C01.int_div_truncates",
+        "generated": True,
+        "proof_modules": ["GrolProofs.Props.C01", "GrolProofs.Precedence"],
+        "theorems": ["Grol.Generated.precedences_documented", "Grol.Generated.priorities_documented",
+                     "Grol.Generated.prefix_registrations_expected", "Grol.Generated.infix_registrations_expected",
+                     "Grol.E.C01.int_arith", "Grol.E.C01.int_arith_wraps", "Grol.E.C01.int_div", "Grol.E.C01.int_div_truncates",
                      "Grol.E.C01.shifts", "Grol.E.C01.prefix_ops", "Grol.E.C01.array_index"],
         "suites": [["eval", "C01"]],
         "rule": EVAL_RULE + " C01 statement: the default configuration's output/value/error flag per input equal the reference (model without cache).",
